@@ -344,6 +344,8 @@ def one_deletion(ctx, out, model, key, tgt, name, fn, rel, mode, req, impl, meta
         return id(x)
 
     spanning = len({root_of(x) for x in sub}) > 1   # the subtree continues in other fragment files
+    tgt_roots = {root_of(tgt_el)} | {root_of(x) for x in extra}
+    local_sub = [id(x) for x in sub if root_of(x) in tgt_roots]   # what parent.remove() detaches (computed before the deletion)
     span = "|fragment-spanning" if spanning else ""
     # the deleting accessor's own containment relation is not a stored reference; nothing to exclude
     snap0 = ol.tree_snapshot(loader)
@@ -372,7 +374,8 @@ def one_deletion(ctx, out, model, key, tgt, name, fn, rel, mode, req, impl, meta
 
     # model request
     req.append({"op": "delete", "elems": [id(x) for x in elems],
-                "refs": [{k: v for k, v in r.items() if not k.startswith("_")} for r in refs], "sub": [id(x) for x in sub]})
+                "refs": [{k: v for k, v in r.items() if not k.startswith("_")} for r in refs], "sub": [id(x) for x in sub],
+                "local": local_sub})
     meta.append((key, name, tgt_uuid, [f"{r['kind']}:{r['slot']} on <{r['_e'].tag}> inside_sub={r['owner'] in sub_n or r['carrier'] in sub_n} target_in_sub={r['target'] in sub_n}" for r in refs]))
     if outcome != "ok":
         if outcome == "NotImplementedError":
@@ -385,6 +388,10 @@ def one_deletion(ctx, out, model, key, tgt, name, fn, rel, mode, req, impl, meta
             out.extra.setdefault("unmodelled_refusals", {})
             out.extra["unmodelled_refusals"][outcome] = out.extra["unmodelled_refusals"].get(outcome, 0) + 1
         h1, d1 = ol.frag_hashes(loader), ol.index_dump(loader)
+        if name == "decl-delete-2":
+            # two deletions in one instruction: the statement is per object, the first may have succeeded
+            out.hit("decl-delete-2.partial-not-judged")
+            return
         if h1 != h0:
             find(f"refused-deletion-changed-model|{outcome}", f"raised {outcome} but fragments {[f for f in h0 if h0[f] != h1.get(f)]} differ")
         if d1 != d0:
